@@ -256,6 +256,10 @@ func F2(rc *RC) {
 				"$r.fromSlice(" + dec[5] + ")",
 				"return $r.sanity()",
 			}
+			// installing shape, strides, order and triangle in one go is the same thing
+			if strings.Contains(txt, "$r.AP = MakeAP("+dec[0]+", "+dec[1]+", "+dec[2]+", "+dec[3]+")") {
+				need = need[3:]
+			}
 			for _, n := range need {
 				if !strings.Contains(txt, n) {
 					bad = append(bad, "decoded value does not reach the tensor: missing "+n)
